@@ -18,13 +18,13 @@ VARIABLES k, nq
 Recs == JsonDeserialize(IOEnv.TRACE_FILE)
 
 Declared(r) == {r.names[i] : i \in DOMAIN r.names}
-BadQueries(r) == {i \in DOMAIN r.queries : ~LookupG(Declared(r), r.queries[i].q, r.queries[i].out)}
+BadQueries(r) == LET D == Declared(r) IN {i \in DOMAIN r.queries : ~LookupG(D, r.queries[i].q, r.queries[i].out)}
 Distinct(r) == Cardinality(Declared(r)) = Len(r.names)
 TableModelOK(r) == \/ Len(r.table) = 0 /\ Len(r.names) # 0       \* not observed
                    \/ /\ Len(r.table) = Len(r.names)
                       /\ {r.table[i] : i \in DOMAIN r.table} = Declared(r)
                       /\ \A i \in 1..(Len(r.table) - 1) : PyLess(r.table[i], r.table[i + 1])
-                      /\ SortedForC(r.table)
+                      /\ \A i \in 1..(Len(r.table) - 1) : Strcmp(r.table[i], r.table[i + 1]) < 0   \* adjacent pairs suffice
 
 TInit == k = 0 /\ nq = 0
 Check(i) == LET r == Recs[i] IN
